@@ -42,7 +42,7 @@ def case(ctx, rng):
             p = t["path"]; d = os.path.join(rr.repo, dir_by_target[p]); os.makedirs(d, exist_ok=True)
             entries = []
             for c in cmds:
-                kind = rng.choice(["stem", "stem", "stem_ext", "defpath", "def_empty", "undef"])
+                kind = rng.choice(["stem", "stem", "stem_ext", "defpath", "def_empty", "undef", "defpath_missing"])
                 if kind in ("stem", "stem_ext", "def_empty"):
                     ext = "" if kind == "stem" else rng.choice([".sh", ".py", ".bin"])
                     rr.install(c, p, "exec", cmd_dir=d, ext=ext); entries.append(c + ext)
@@ -55,6 +55,12 @@ def case(ctx, rng):
                     t.setdefault("commands", {}).setdefault("definitions", {})[c] = {"path": rel}
                     # a same-stem file in the command directory must NOT be chosen
                     if rng.random() < 0.5: rr.install(c, p, "exec", cmd_dir=d, ext=".decoy"); entries.append(c + ".decoy")
+                elif kind == "defpath_missing":
+                    # the configured path does not exist (renamed/deleted script) while a file with the command's stem sits in
+                    # the command directory: the configured path is still THE executable - nothing else may be started
+                    rel = "tools/bin/%s_%s_gone" % (p.replace("/", "_"), c)
+                    t.setdefault("commands", {}).setdefault("definitions", {})[c] = {"path": rel}
+                    rr.install(c, p, "exec", cmd_dir=d, ext=".sh"); entries.append(c + ".sh")
                 resolution[(c, p)] = kind
             for decoy in rng.sample(["builder.sh", "xbuild", "build.tar.gz", "tests", ".build"], 2):
                 if all(not e.startswith(decoy.split(".")[0] + ".") and e != decoy for e in entries) or True:
@@ -100,8 +106,10 @@ def case(ctx, rng):
                 if cmd == "%s_%s_impl" % (t["target"].replace("/", "_"), c): cmd = c
             by[(cmd, t["target"])] = t
         queries, cwd_ok, multi = [], True, False
+        status = {(cmd, t): st for cmd, gs in runscen.result_statuses(out) for g in gs for t, (st, code) in g.items()}
         for c in run_cmds:
             for p in run_targets:
+                if status.get((c, p)) == "skipped": continue      # an earlier not-executable entry stopped the run: nothing to compare
                 tr = by.get((c, p))
                 kind = resolution.get((c, p), "undef")
                 entries = dir_by_target[p + "#entries"]
@@ -109,9 +117,11 @@ def case(ctx, rng):
                 tdef = next(t for t in cfg_targets if t["path"] == p).get("commands", {}).get("definitions", {}).get(c)
                 if tdef is not None: defp = [tdef["path"]]
                 if tr is None:
-                    queries.append([p, c, [], defp, entries, [], False]); continue
+                    # nothing was started: for a configured-but-missing path that is the right outcome (resolved to the path, not executable)
+                    impl_res = [[True, defp[0]]] if (kind == "defpath_missing" and defp) else []
+                    queries.append([p, c, [], defp, entries, impl_res, False]); continue
                 argv0 = bytes.fromhex(tr["argv0"]).decode("utf-8", "replace")
-                if kind == "defpath": impl_res = [[True, os.path.relpath(argv0, rr.repo)]]
+                if kind == "defpath" or (kind == "defpath_missing" and not os.path.basename(argv0).startswith(c + ".")): impl_res = [[True, os.path.relpath(argv0, rr.repo)]]
                 else: impl_res = [[False, os.path.basename(argv0)]]
                 queries.append([p, c, tr["argv_s"], defp, entries, impl_res, True])
                 if bytes.fromhex(tr["cwd"]).decode() != os.path.join(rr.repo, p): cwd_ok = False
@@ -127,7 +137,7 @@ def case(ctx, rng):
         rr.close()
 
 def run(ctx, scale):
-    for _ in range((14 if ctx.quick() else 300) * scale):
+    for _ in range((40 if ctx.quick() else 400) * scale):
         cs = ctx.rng.getrandbits(32)
         n0 = len(ctx.spec_failures), len(ctx.tie_breaks)
         case(ctx, random.Random(cs))
